@@ -8,6 +8,7 @@ import (
 	"errors"
 	"fmt"
 	"os"
+	"sync"
 	"testing"
 
 	"github.com/gotid/god/internal/verifc01"
@@ -45,6 +46,7 @@ type coreTarget struct {
 	prefix  string
 	private map[string]breaker.Breaker
 	ncalls  int
+	mu      sync.Mutex
 	seed    int64
 }
 
@@ -56,8 +58,16 @@ func (t *coreTarget) isPrivate(name string) bool { return name[0] == 'p' }
 
 func (t *coreTarget) Disable(name string) { breaker.NoBreakerFor(t.real(name)) }
 
-func (t *coreTarget) Do(name string, c verifc01.Call) (o verifc01.Obs) {
+func (t *coreTarget) Do(name string, c verifc01.Call) verifc01.Obs {
+	return t.doWith(name, c, nil, nil)
+}
+
+// doWith performs one call; onReq / onFb (optional) are called from inside the protected
+// function / the fallback (the trace recorder logs its events there).
+func (t *coreTarget) doWith(name string, c verifc01.Call, onReq func(), onFb func(arg string)) (o verifc01.Obs) {
+	t.mu.Lock() // Do is called from several goroutines in parallel bursts
 	t.ncalls++
+	ncalls := t.ncalls
 	var b breaker.Breaker
 	viaPkg := false
 	if t.isPrivate(name) {
@@ -71,14 +81,18 @@ func (t *coreTarget) Do(name string, c verifc01.Call) (o verifc01.Obs) {
 		}
 	} else {
 		// both ways into the registry are the same breaker: alternate (seeded)
-		viaPkg = (int64(t.ncalls)+t.seed)%2 == 0
+		viaPkg = (int64(ncalls)+t.seed)%2 == 0
 		if !viaPkg {
 			b = breaker.Get(t.real(name))
 		}
 	}
-	pv := &panicValue{t.ncalls}
+	t.mu.Unlock()
+	pv := &panicValue{ncalls}
 	req := func() error {
 		o.Req++
+		if onReq != nil {
+			onReq()
+		}
 		switch c.Oc {
 		case "ok":
 			return nil
@@ -98,6 +112,9 @@ func (t *coreTarget) Do(name string, c verifc01.Call) (o verifc01.Obs) {
 		} else {
 			o.FbArg = fmt.Sprintf("other:%v", err)
 		}
+		if onFb != nil {
+			onFb(o.FbArg)
+		}
 		return errFb
 	}
 	if c.Api == "allow" {
@@ -110,6 +127,9 @@ func (t *coreTarget) Do(name string, c verifc01.Call) (o verifc01.Obs) {
 			return
 		}
 		o.Req++ // the promise callback
+		if onReq != nil {
+			onReq()
+		}
 		if c.Oc == "accept" {
 			p.Accept()
 		} else {
